@@ -16,9 +16,15 @@ def hx(b):
     return b.hex() if b else "-"
 
 
+_exe_cache = {}
+
+
 def worker_exe(variant):
-    return yvbuild.link(variant, "yvw", [os.path.join(H, "yvw.c"), os.path.join(H, "yvcommon.c")],
-                        extra_cflags=["-DYV_WRAP"], extra_ld=WRAP_LD)
+    # memoised per process tree: the tree is hashed and built once per check run (in the parent, before the pool forks)
+    if ("yvw", variant) not in _exe_cache:
+        _exe_cache[("yvw", variant)] = yvbuild.link(variant, "yvw", [os.path.join(H, "yvw.c"), os.path.join(H, "yvcommon.c")],
+                                                    extra_cflags=["-DYV_WRAP"], extra_ld=WRAP_LD)
+    return _exe_cache[("yvw", variant)]
 
 
 class WorkerDied(Exception):
@@ -361,7 +367,9 @@ def repo_file(rel):
 
 
 def space_exe(variant):
-    return yvbuild.link(variant, "space", [os.path.join(H, "space.c"), os.path.join(H, "yvcommon.c")])
+    if ("space", variant) not in _exe_cache:
+        _exe_cache[("space", variant)] = yvbuild.link(variant, "space", [os.path.join(H, "space.c"), os.path.join(H, "yvcommon.c")])
+    return _exe_cache[("space", variant)]
 
 
 class Space:
